@@ -36,7 +36,11 @@ RULE = ("layouts built from block-occupancy vectors over nr x nc grids of unit b
         "BlockShuffleSplit; partition_by_sum called directly on every array of length <= 5 with entries 0..4 "
         "(0..3 at length 6; quick: length <= 4, 0..2 at length 5) x every parts from 1 to length+1 and on random longer arrays; random layouts up to 12x12 "
         "blocks with empty and very uneven blocks, shape= or spacing=; a malformed stream (n_splits < 2 or larger than "
-        "the number of occupied blocks, balancing < 1, sizes out of range). Reproducibility: for every case the folds "
+        "the number of occupied blocks, balancing < 1, sizes out of range); a sparse-fine-grid stream for both "
+        "cross-validators (180-300 samples, thorough up to 400, along survey lines and in clusters over mostly empty "
+        "50x50 .. 100x100 block grids with the corner blocks occupied, n_splits 3..5, shuffle on/off, balance on/off; block ids "
+        "run into the thousands, where numpy's isin takes its sort-based path; the labels go to Coq as their ranks among the "
+        "occupied ids). Reproducibility: for every case the folds "
         "compared with the model are the first split() of a fresh instance on a C-ordered X, and the following must give "
         "exactly the same folds: split() a 2nd (thorough: and 3rd) time on the SAME instance, a second fresh instance, "
         "sklearn.base.clone of the used instance (split twice; safe=False, i.e. a deep copy, while the splitters have no "
@@ -50,6 +54,7 @@ RULE = ("layouts built from block-occupancy vectors over nr x nc grids of unit b
         "EXTRA). A case is non-trivial when the cross-validator yields folds over >= 2 occupied blocks; distinct = "
         "distinct (labels, parameters, seed) tuples.")
 ASSUMPTIONS = [
+    "sparse-fine-grid cases only: the observed block labels are passed to Coq as their ranks among the distinct observed labels (a strictly increasing renaming done by the harness); the model only sorts the distinct labels and tests membership, which this renaming preserves",
     "block labels are whatever verde.block_split returns for the given coordinates and shape/spacing (observed per case, an input of the model)",
     "numpy RandomState(seed).shuffle of a 1-D array of length m applies a permutation that depends only on (seed, m); RandomState.permutation likewise (oracles replayed with the same seed)",
     "sklearn ShuffleSplit draws one rng.permutation(m) per split, test = first n_test entries, train = the next n_train (re-checked against the real ShuffleSplit on every case)",
@@ -268,6 +273,23 @@ def _variants_for(spec):
     return [VARIANTS[(k + 3 * i) % len(VARIANTS)] for i in range(spec.get("nvariants", 1))]
 
 
+def _coq_labels(labels, spec):
+    """labels as given to Coq.  For the fine, mostly empty grids the labels are replaced by their ranks among
+    the occupied block ids (a strictly increasing renaming): the model only sorts the distinct labels and tests
+    membership, both invariant under it, and unary naturals in the thousands would make coqc crawl."""
+    if not spec.get("compress"):
+        return labels
+    rank = {b: k for k, b in enumerate(sorted(set(labels)))}
+    return [rank[b] for b in labels]
+
+
+def _occ_desc(spec):
+    occ = spec["occ"]
+    if spec.get("compress"):
+        return {"nonzero blocks (index: samples)": {str(i): int(v) for i, v in enumerate(occ) if v}}
+    return list(occ)
+
+
 def _bargs_src(bargs):
     return ", ".join("%s=%r" % kv for kv in bargs.items())
 
@@ -304,9 +326,9 @@ def _do_kfold(spec):
     else:
         cobs = "(Some (true,[]))"
     term = "(c11_kfold_case %s %d %s %s %s %s)%%nat" % (
-        nl(labels), spec["n_splits"], shuf, core.cbool(spec["balance"]), core.cbool(repro_ok), cobs)
+        nl(_coq_labels(labels, spec)), spec["n_splits"], shuf, core.cbool(spec["balance"]), core.cbool(repro_ok), cobs)
     inp = {"cv": "BlockKFold", "grid": [nr, nc], "block_args": {k: (list(v) if isinstance(v, tuple) else v) for k, v in bargs.items()},
-           "occupancy": list(spec["occ"]), "labels": labels, "n_splits": spec["n_splits"],
+           "occupancy": _occ_desc(spec), "labels": labels, "n_splits": spec["n_splits"],
            "shuffle": spec["seed"] is not None, "random_state": spec["seed"], "balance": spec["balance"],
            "shuffle_oracle": perm}
     out = list(obs) + [{"reproducible": repro_ok, "failed_reproducibility_checks": failed}]
@@ -368,10 +390,10 @@ def _do_bss(spec):
     else:
         cobs = "(Some [])"
     term = "(c11_bss_case %s %d %d %s %s %s %s %s)%%nat" % (
-        nl(labels), spec["n_splits"], max(spec["balancing"], 0), csize(ts), csize(tr),
+        nl(_coq_labels(labels, spec)), spec["n_splits"], max(spec["balancing"], 0), csize(ts), csize(tr),
         "[" + ";".join(nl(p) for p in perms) + "]", core.cbool(repro_ok), cobs)
     inp = {"cv": "BlockShuffleSplit", "grid": [nr, nc], "block_args": {k: (list(v) if isinstance(v, tuple) else v) for k, v in bargs.items()},
-           "occupancy": list(spec["occ"]), "labels": labels, "n_splits": spec["n_splits"],
+           "occupancy": _occ_desc(spec), "labels": labels, "n_splits": spec["n_splits"],
            "test_size": ts, "train_size": tr, "random_state": spec["seed"], "balancing": spec["balancing"],
            "permutation_oracle": perms if len(perms) <= 12 else "%d permutations of range(%d)" % (len(perms), nb)}
     out = list(obs[:1]) + list(obs[2:]) + [{"reproducible": repro_ok, "failed_reproducibility_checks": failed}]
@@ -473,7 +495,7 @@ def _random_layout(rnd, big):
 
 def _kfold_random(tier, rnd):
     specs = []
-    n = 250 if tier == "quick" else 2500
+    n = 160 if tier == "quick" else 2500
     for i in range(n):
         lay = _random_layout(rnd, big=(i % 3 != 0))
         nocc = sum(1 for v in lay["occ"] if v)
@@ -538,7 +560,7 @@ def _bss_exhaustive(tier, rnd):
 
 def _bss_random(tier, rnd):
     specs = []
-    n = 250 if tier == "quick" else 2500
+    n = 160 if tier == "quick" else 2500
     for i in range(n):
         lay = _random_layout(rnd, big=(i % 3 != 0))
         nocc = sum(1 for v in lay["occ"] if v)
@@ -619,6 +641,62 @@ def _specs(tier, rnd):
     return specs
 
 
+def _sparse_layout(rnd, max_points):
+    """a few hundred samples along survey lines / in clusters over a fine, mostly empty block grid; the two
+    opposite corner blocks are occupied so that the data region is the whole grid"""
+    side = rnd.choice([50, 60, 60, 80, 80, 100])
+    nr, nc = side, rnd.choice([side, side, max(40, side - 20)])
+    occ = [0] * (nr * nc)
+    target = rnd.randint(200, max_points)
+    style = rnd.choice(["lines", "lines", "clusters", "mixed"])
+    if style in ("lines", "mixed"):
+        nlines = rnd.randint(3, 7)
+        for _ in range(nlines):
+            vertical = rnd.random() < 0.7
+            pos = rnd.randrange(nc if vertical else nr)
+            length = nr if vertical else nc
+            for t in range(length):
+                if rnd.random() < (target / nlines / length / 1.6):
+                    b = (t * nc + pos) if vertical else (pos * nc + t)
+                    occ[b] += rnd.choice([1, 1, 2, 2, 3, 4])
+    if style in ("clusters", "mixed"):
+        for _ in range(rnd.randint(5, 12)):
+            r0, c0, w = rnd.randrange(nr), rnd.randrange(nc), rnd.randint(2, 5)
+            for r in range(r0, min(nr, r0 + w)):
+                for c in range(c0, min(nc, c0 + w)):
+                    if rnd.random() < 0.6:
+                        occ[r * nc + c] += rnd.choice([1, 2, 2, 3, 5])
+    occ[0] = max(occ[0], 1)
+    occ[-1] = max(occ[-1], 1)
+    while sum(occ) < 180:       # top up along the occupied blocks' neighbours
+        nz = [i for i, v in enumerate(occ) if v]
+        b = min(len(occ) - 1, max(0, rnd.choice(nz) + rnd.choice([-nc, nc, -1, 1, 0])))
+        occ[b] += 1
+    while sum(occ) > max_points:
+        nz = [i for i, v in enumerate(occ) if v and i not in (0, len(occ) - 1)]
+        occ[rnd.choice(nz)] -= 1
+    return {"grid": (nr, nc), "occ": tuple(occ), "compress": True}
+
+
+def _sparse_grid(tier, rnd, n=None):
+    specs = []
+    if n is None:
+        n = 12 if tier == "quick" else 96
+    for i in range(n):
+        lay = _sparse_layout(rnd, 300 if tier == "quick" else 400)
+        nocc = sum(1 for v in lay["occ"] if v)
+        seed = None if i % 4 == 3 else rnd.randrange(10 ** 6)
+        if i % 3 != 2:
+            specs.append(dict(lay, cv="kfold", kind="kfold-sparse-grid", n_splits=rnd.choice([3, 4, 5]), seed=seed,
+                              balance=(i % 2 == 0)))
+        else:
+            ts, tr = rnd.choice([(0.25, None), (0.2, None), (0.3, 0.5), (max(1, nocc // 4), None), (None, 0.75)])
+            specs.append(dict(lay, cv="bss", kind="bss-sparse-grid", n_splits=rnd.choice([1, 2]),
+                              balancing=rnd.choice([1, 2, 3]), test_size=ts, train_size=tr,
+                              seed=rnd.randrange(10 ** 6)))
+    return specs
+
+
 def _specs0(tier, rnd):
     specs = []
     specs += _pbs(tier, rnd)
@@ -628,6 +706,7 @@ def _specs0(tier, rnd):
     specs += _bss_exhaustive(tier, rnd)
     specs += _bss_random(tier, rnd)
     specs += _bss_malformed(tier, rnd)
+    specs += _sparse_grid(tier, rnd)
     return specs
 
 
@@ -666,4 +745,9 @@ def generate(tier, seed):
 
 def search(dis, tier, seed):
     rnd = random.Random(seed + 1)
-    return _run(_specs("thorough" if tier == "quick" else "quick", rnd), rnd)
+    specs = _sparse_grid("thorough", rnd, n=48) + _kfold_random("quick", rnd) + _bss_random("quick", rnd) \
+        + _kfold_exhaustive("quick", rnd) + _bss_exhaustive("quick", rnd) + _pbs("quick", rnd)
+    for k, sp in enumerate(specs):
+        if sp["cv"] != "pbs":
+            sp.update(variant=k // 2, all_variants=False, nvariants=2, ncalls=3)
+    return _run(specs, rnd)
